@@ -174,6 +174,16 @@ class Pipeline:
                     f"Path generated for {file!r}: {new_relative_path} is not relative to the input directory",
                 )
 
+            # A destination which is a symbolic link would be replaced, not followed:
+            # the directory the destination entry really lives in has to lie in the input directory too
+            destination_directory = (
+                file.input_directory / new_relative_path
+            ).parent.resolve()
+            if not destination_directory.is_relative_to(file.input_directory):
+                raise InvalidDestinationError(
+                    f"Path generated for {file!r}: {new_relative_path} lies in {destination_directory} which is outside of the input directory",
+                )
+
             # Directories missing on the way to the destination are going to be created:
             # they have to lie in the input directory too (think of "../new/../<input>/x")
             destination_parent = file.input_directory / new_relative_path.parent
